@@ -126,6 +126,7 @@ func c18Setup() *c18Env {
 		_ = os.MkdirAll(filepath.Join(e.scratch, "tmp"), 0o755)
 		_ = os.MkdirAll("/tmp/sub", 0o755)
 		_ = os.Symlink(e.decoy, "/tmp/link")
+		_ = os.Symlink("/tmp", filepath.Join(e.decoy, "totmp")) // a parent elsewhere that RESOLVES to /tmp
 		_ = os.Chdir(e.scratch)
 		c18E = e
 	})
@@ -349,7 +350,7 @@ func c18Server(res *vlib.Result, obj string, remote bool) {
 
 func c18Paths(peer string, thorough bool) []string {
 	h, p, _ := net.SplitHostPort(peer)
-	bases := []string{"/tmp", "/tmp/", "//tmp", "/tmp/.", "/tmp/../tmp", "/var/tmp", "/tmp/sub", "/tmp/link", "tmp", ""}
+	bases := []string{"/tmp", "/tmp/", "//tmp", "/tmp/.", "/tmp/../tmp", "/var/tmp", "/tmp/sub", "/tmp/link", "tmp", "", "/proc/self/root/tmp", "/proc/self/cwd/../../../../tmp", filepath.Join(c18Setup().decoy, "totmp")}
 	leaves := []string{"FS_1", "FS_XXXjlv9Zj", "FS_", "FS_abcdefghij1234567", "FS_abcdefghij123456", "fs_1", "FS-1", "FS_1.2", "FS_a_b", ".X11-unix", "..", ".", "FS_1/../x", "FS_1\x01x", "FS_é", "FS_" + strings.Repeat("a", 5000), "FS_REMOTE_h_1_a", "FS_REMOTE_host.example.org_123_abc", "FS_REMOTE_1"}
 	ips := []string{h, "10.9.9.9", "fd00::2", "::ffff:10.2.2.2", "hostname", "[::1]", "fd00::3", "::1", "2001:db8::1", "fd00:0:0:0:0:0:0:2", "10.2.2.3", "::ffff:10.9.9.9"}
 	ports := []string{p, "1", "0", "65536", "123456"}
@@ -389,7 +390,7 @@ func c18Paths(peer string, thorough bool) []string {
 func C18Plan() *vlib.Plan {
 	p := &vlib.Plan{
 		Property: "C18", Level: "exploration", Workers: 1, Quiet: true,
-		Rule:   "E-ENUM in a private mount namespace (fresh tmpfs on /tmp): paths = base in {/tmp, /tmp/, //tmp, /tmp/., /tmp/../tmp, /var/tmp, /tmp/sub, /tmp/link (symlink to a decoy dir), tmp, ''} x leaf in {recognised and near-miss names, '.', '..', traversal, control and non-ASCII bytes, 5000 chars, remote forms, address forms over 12 ip spellings (the peer's own, other v4 / v6 hosts, equivalent long and v4-mapped spellings, a host name, a bracketed form) x 5 ports} (+ every single-character mutation of two accepted paths in thorough) x peer address {v4, v6} x {local, remote} x scripted server {answers 0, answers -1, closes after the path, closes after reading the client's answer (no verdict), trailing bytes}; recursive snapshots of /tmp + scratch CWD + decoy dirs before / when the server holds the client's answer / after. Oracle: independent path validator written from the statement; at most one directory, only for acceptable paths, mode 0700, answer 0 iff created, snapshot restored afterwards, client nil iff server answered 0. Server half against {nothing, dir 0700, dir 0755, dir of another uid, dir with a sub-directory, regular file, symlink to dir / file, fifo}. Non-trivial = every exchange (distinct by construction).",
+		Rule:   "E-ENUM in a private mount namespace (fresh tmpfs on /tmp): paths = base in {/tmp, /tmp/, //tmp, /tmp/., /tmp/../tmp, /var/tmp, /tmp/sub, /tmp/link (symlink to a decoy dir), tmp, '', /proc/self/root/tmp, a symlink elsewhere that resolves to /tmp} x leaf in {recognised and near-miss names, '.', '..', traversal, control and non-ASCII bytes, 5000 chars, remote forms, address forms over 12 ip spellings (the peer's own, other v4 / v6 hosts, equivalent long and v4-mapped spellings, a host name, a bracketed form) x 5 ports} (+ every single-character mutation of two accepted paths in thorough) x peer address {v4, v6} x {local, remote} x scripted server {answers 0, answers -1, closes after the path, closes after reading the client's answer (no verdict), trailing bytes}; recursive snapshots of /tmp + scratch CWD + decoy dirs before / when the server holds the client's answer / after. Oracle: independent path validator written from the statement; at most one directory, only for acceptable paths, mode 0700, answer 0 iff created, snapshot restored afterwards, client nil iff server answered 0. Server half against {nothing, dir 0700, dir 0755, dir of another uid, dir with a sub-directory, regular file, symlink to dir / file, fifo}. Non-trivial = every exchange (distinct by construction).",
 		Assume: []string{"runs inside `unshare -m` with a tmpfs on /tmp when available (evidence field namespace); as root"},
 	}
 	p.Gen = func(tier string, yield func(vlib.Case)) {
